@@ -171,7 +171,8 @@ def random_tree(rng: random.Random, root_id: str, n_states: int, *, p_parallel=0
     return root
 
 
-def tree_to_config(root: Node, *, markers=True) -> Config:
+def tree_to_config(root: Node, *, markers=True, double=False) -> Config:
+    """double: entry/exit lists carry two marker actions (so that 'the remainder of the list' exists)."""
     rid = root.key
 
     def conv(n: Node) -> Config:
@@ -191,8 +192,8 @@ def tree_to_config(root: Node, *, markers=True) -> Config:
         if n.kind == "compound" and n.initial:
             c["initial"] = n.initial
         if markers and n.kind != "history":
-            c["entry"] = ["en:" + nid]
-            c["exit"] = ["ex:" + nid]
+            c["entry"] = ["en:" + nid] + (["en:" + nid + "#2"] if double else [])
+            c["exit"] = ["ex:" + nid] + (["ex:" + nid + "#2"] if double else [])
         if n.kids:
             c["states"] = {k.key: conv(k) for k in n.kids}
         return c
@@ -209,7 +210,7 @@ def find(config: Config, path: List[str]) -> Config:
 
 def add_complete_transitions(root: Node, config: Config, *, rng: Optional[random.Random] = None,
                              density: float = 1.0, reenter_twins=True, targetless=True,
-                             include_root_target=False) -> None:
+                             include_root_target=False, double=False) -> None:
     """One transition per ordered (source, target) pair, each on its own event."""
     nodes = list(root.walk())
     srcs = [n for n in nodes if n.kind not in ("history", "final")]
@@ -224,7 +225,7 @@ def add_complete_transitions(root: Node, config: Config, *, rng: Optional[random
             k += 1
             ev = f"e{k}"
             tgt = "#" + ".".join(t.path)
-            on[ev] = {"target": tgt, "actions": [f"tr:{ev}"]}
+            on[ev] = {"target": tgt, "actions": [f"tr:{ev}"] + ([f"tr:{ev}#2"] if double else [])}
             related = t is s or s in _anc(t) or t in _anc(s)
             if reenter_twins and related and t.kind != "history":
                 k += 1
@@ -246,14 +247,14 @@ def _anc(n: Node) -> List[Node]:
 
 
 def family_T_random(seed: int, count: int, *, min_states=3, max_states=7, density=1.0,
-                    with_on_done=True) -> List[Spec]:
+                    with_on_done=True, double=False) -> List[Spec]:
     rng = random.Random(seed)
     out = []
     for i in range(count):
         n = rng.randint(min_states, max_states)
         root = random_tree(rng, "m", n)
-        cfg = tree_to_config(root)
-        add_complete_transitions(root, cfg, rng=rng, density=density)
+        cfg = tree_to_config(root, double=double)
+        add_complete_transitions(root, cfg, rng=rng, density=density, double=double)
         if with_on_done:
             for nd in root.walk():
                 if nd.kind in ("compound", "parallel") and nd is not root and rng.random() < 0.5:
